@@ -28,11 +28,13 @@ pub struct Domain {
     pub respond_weight: u32,
     /// large responses to clients that have stopped reading
     pub big_to_nonreaders: bool,
+    /// probability that a send carries descriptors (SCM_RIGHTS)
+    pub fds: f64,
 }
 
 pub fn domain(prop: &str, small: bool) -> Domain {
     let d = Domain { name: "C08", nclients: (1, 4), good: 99, steps: 60, kill: false, flush: true, setlimit: false,
-                     big_pad: false, close_weight: 0, eager_poll: 0.5, pipeline: 0.2, respond_weight: 5, big_to_nonreaders: false };
+                     big_pad: false, close_weight: 0, eager_poll: 0.5, pipeline: 0.2, respond_weight: 5, big_to_nonreaders: false, fds: 0.0 };
     match prop {
         "C07" => Domain { name: "C07", nclients: (3, 5), good: 0, close_weight: 6, flush: true, ..d },
         "C08" => d,
@@ -42,6 +44,8 @@ pub fn domain(prop: &str, small: bool) -> Domain {
         "C07pipe" => Domain { name: "C07pipe", nclients: (1, 2), good: 0, close_weight: 1, pipeline: 0.7, respond_weight: 2, eager_poll: 0.35, flush: false, ..d },
         "C10" => Domain { name: "C10", nclients: if small { (4, 6) } else { (11, 13) }, good: 0, close_weight: 5, steps: if small { 70 } else { 140 }, ..d },
         "C18" => Domain { name: "C18", nclients: (1, if small { 4 } else { 11 }), good: 0, kill: true, close_weight: 1, ..d },
+        // descriptors travel with any piece of any request; pipelining, malformed input, closes and late answers mixed in
+        "C12srv" => Domain { name: "C12srv", nclients: (1, 3), good: 0, close_weight: 2, pipeline: 0.5, respond_weight: 3, fds: 0.5, ..d },
         "C04" => Domain { name: "C04", nclients: (1, 3), good: 0, setlimit: true, close_weight: 1, ..d },
         _ => d,
     }
@@ -55,6 +59,7 @@ struct CState {
     outq: VecDeque<Vec<u8>>,
     nreq: usize,
     stop_reading: bool,
+    nfd: usize,
 }
 
 fn request_pieces(rng: &mut StdRng, c: usize, k: usize, good: bool, limit: usize) -> Vec<Vec<u8>> {
@@ -154,7 +159,7 @@ pub fn history(dom: &Domain, seed: u64, hist: u64, sock_dir: &str, out: &mut dyn
     let with_kill = dom.kill || rng.gen_bool(0.3);
     let mut d = Driver::new(nclients, limit, with_kill, sock_dir, hist, out);
     let mut cs: Vec<CState> = (0..nclients)
-        .map(|_| CState { connected: false, closed: false, wr: false, rd: false, outq: VecDeque::new(), nreq: 0, stop_reading: false })
+        .map(|_| CState { connected: false, closed: false, wr: false, rd: false, outq: VecDeque::new(), nreq: 0, stop_reading: false, nfd: 0 })
         .collect();
     let mut cur_limit = limit;
     let kill_at = if dom.kill { rng.gen_range(0..dom.steps) } else { usize::MAX };
@@ -258,7 +263,7 @@ pub fn history(dom: &Domain, seed: u64, hist: u64, sock_dir: &str, out: &mut dyn
         } else if rng.gen_bool(0.05) {
             cands.push((1, json!({"e": "poll"}))); // logged as not called: readiness flag only
         }
-        if rng.gen_bool(0.03) {
+        if rng.gen_bool(if dom.fds > 0.0 { 0.3 } else { 0.03 }) {
             cands.push((1, json!({"e": "fdcount"})));
         }
         if cands.is_empty() {
@@ -302,7 +307,17 @@ pub fn history(dom: &Domain, seed: u64, hist: u64, sock_dir: &str, out: &mut dyn
                     cs[c - 1].outq.extend(pieces);
                 }
                 let bytes = cs[c - 1].outq.pop_front().unwrap();
-                d.step(&json!({"e": "send", "c": c, "bytes": obs::bytes(&bytes)}), out);
+                let mut fds: Vec<i64> = vec![];
+                if dom.fds > 0.0 && rng.gen_bool(dom.fds) {
+                    let n = *[1usize, 1, 2, 3].choose(&mut rng).unwrap();
+                    for _ in 0..n {
+                        if cs[c - 1].nfd < 99 {
+                            cs[c - 1].nfd += 1;
+                            fds.push((100 * c + cs[c - 1].nfd) as i64);
+                        }
+                    }
+                }
+                d.step(&json!({"e": "send", "c": c, "bytes": obs::bytes(&bytes), "fds": fds}), out);
             }
             "connect" => {
                 d.step(&chosen, out);
